@@ -1,0 +1,13 @@
+//go:build verif
+
+package hub
+
+// VerifPoint, if set, is called at marked places between two steps of a hub operation: a verification harness may hold
+// the calling goroutine there for a moment, which is a legal schedule of the operation
+var VerifPoint func(h *Hub, name string)
+
+func (h *Hub) verifPoint(name string) {
+	if VerifPoint != nil {
+		VerifPoint(h, name)
+	}
+}
